@@ -23,11 +23,10 @@ Definition check (c : c02case) : verdict :=
   | C02Read dom cmpb tol lines idx out =>
       let txt := mk_text lines idx in
       let wf := c02_wf txt in
-      {| corr_ok := opt_set_close cmpb tol (sm_read conf pinned txt) out
-                    || opt_set_close cmpb tol (sm_read conf repaired txt) out;
-         spec_ok := negb wf || match sm_denote txt, out with
+      {| corr_ok := first_true (fun v => opt_set_close cmpb tol (sm_read conf v txt) out) [pinned; repaired];
+         spec_ok := if wf then match sm_denote txt, out with
                                | Some d, Some o => read_spec tol d o
-                               | _, _ => false end;
+                               | _, _ => false end else true;
          wf_ok := negb dom || wf |}
   end.
 
